@@ -1,5 +1,6 @@
 (** Extraction of the executable models.  ExtrOcamlBasic only: bool, option, unit, list, prod,
     sumbool are mapped to OCaml's; N / positive / nat stay Coq datatypes.  No Extract Constant. *)
 From Coq Require Import Extraction ExtrOcamlBasic NArith DecimalN.
-From Astria Require Import Bundle.BundleModel.
-Separate Extraction N.of_uint N.to_uint BundleModel.run BundleModel.init.
+From Astria Require Import Bundle.BundleModel Merkle.MerkleModel.
+Separate Extraction N.of_uint N.to_uint BundleModel.run BundleModel.init
+  MerkleModel.
